@@ -772,6 +772,16 @@ def corpus(ctx):
     check_init(ctx, 5, np.array([[0.75]]), np.array([[1.0]]), np.float64, {"corpus": "D3"})
     check_init(ctx, 5, np.array([[0.0, 1.0], [-0.5, -0.25]]), np.array([[0.0], [1.0]]), np.float64, {"corpus": "D3-2x2"})
     ctx.case({"corpus": "D3 pade_and_legendre_5.init"})
+    # singular Gramian with the noise-free state listed FIRST (forced Ornstein-Uhlenbeck process: x0' = -a x0 noise-free,
+    # x1' = c x0 - b x1 + sigma dW): the factor has a zero pivot on top of a non-zero column; the final sign normalisation
+    # must leave that column alone (seeded change C09-s7); all orders, both precisions, with and without doublings
+    for q in ORDERS:
+        for dtype in (np.float64, np.float32):
+            for scale in (0.25, 3.0):
+                A = scale * np.array([[-0.5, 0.0], [0.75, -0.25]])
+                B = math.sqrt(scale) * np.array([[0.0], [1.5]])
+                check_expgram(ctx, q, A, B, dtype, {"corpus": "forced-OU, noise-free state first", "scale": scale})
+    ctx.case({"corpus": "forced-OU singular Gramian"})
 
 
 def run(ctx):
